@@ -11,7 +11,7 @@ import (
 
 func init() {
 	register(&propCheck{id: "C04", needRoot: true, run: checkC04,
-		explanation: "Decided statically: (1) DOM — in deleteVersionsTo the `latest <= toVersion ⇒ error` test and the scan of active version readers (error if a reader pins a version in the range) dominate every call that can reach a batch deletion; the same reader scan dominates the deletions of DeleteVersionsFrom; the background pruner reaches deletions only through deleteVersionsTo, so it inherits both guards; (2) ERR — the orphan diff cannot stop early and report success: both node iterators' errors are consulted, and no storage error inside deleteVersion / deleteLegacyVersions / deleteVersionsTo is dropped or swallowed; (3) ORDER — the cached first version advances past v only after deleteVersion(v) returned nil. Added in the build round: an export's pin is released once (ORDER-pin-release); a subtree is skipped as shared only on hash equality (DOM-shared-by-hash); a shared root is re-keyed by saving the new key before deleting the old (ORDER-rekey). NOT decided: that the orphan diff selects exactly the nodes no later version needs (value-level, history-dependent)."})
+		explanation: "Decided statically: (1) DOM — in deleteVersionsTo the `latest <= toVersion ⇒ error` test and the scan of active version readers (error if a reader pins a version in the range) dominate every call that can reach a batch deletion; the same reader scan dominates the deletions of DeleteVersionsFrom; the background pruner reaches deletions only through deleteVersionsTo, so it inherits both guards; (2) ERR — the orphan diff cannot stop early and report success: both node iterators' errors are consulted, and no storage error inside deleteVersion / deleteLegacyVersions / deleteVersionsTo is dropped or swallowed; (3) ORDER — the cached first version advances past v only after deleteVersion(v) returned nil. Added in the build round: an export's pin is released once (ORDER-pin-release); a subtree is skipped as shared only on hash equality (DOM-shared-by-hash); a shared root is re-keyed by saving the new key before deleting the old (ORDER-rekey). NOT decided: that the orphan diff selects exactly the nodes no later version needs (value-level, history-dependent). Rules added in the later seeding rounds (each listed with what it decides in this file's rule table) are described in DESIGN.md §3 \"Third and fourth seeding rounds\" and Appendix C3–C5."})
 }
 
 // readerScan finds `for v, r := range ndb.versionReaders { if … r != 0 { return err } }`:
